@@ -36,19 +36,37 @@ def main(argv=None) -> int:
     ctx = None
     try:
         mod = importlib.import_module("sa.props.%s" % pid.lower())
-        ctx = report.Ctx(args.repo)
-        try:
-            res = mod.run(ctx, args.tier)
-            if res.floor_errors and not res.findings:
-                raise AnalysisError("; ".join(res.floor_errors))
-        except AnalysisError as e:
-            # an anchor that vanished *after* violations were already established does not mask them
-            partial = report.CURRENT
-            if partial is not None and partial.pid == pid and partial.findings:
-                res = partial
-                res.analysed["analysis stopped early"] = str(e)
-            else:
+
+        def attempt():
+            nonlocal ctx
+            ctx = report.Ctx(args.repo)
+            report.CURRENT = None
+            try:
+                r = mod.run(ctx, args.tier)
+                if r.floor_errors and not r.findings:
+                    raise AnalysisError("; ".join(r.floor_errors))
+                return r
+            except AnalysisError as e:
+                # an anchor that vanished *after* violations were already established does not mask them
+                partial = report.CURRENT
+                if partial is not None and partial.pid == pid and partial.findings:
+                    partial.analysed["analysis stopped early"] = str(e)
+                    return partial
                 raise
+        try:
+            res = attempt()
+        except AnalysisError:
+            # the tree is analysed with freshly extracted helpers spliced back into their callers (sa/normalise.py); when
+            # that form is not understood, analyse the tree exactly as written before giving up
+            if os.environ.get("DEEP_VERIF_NORMALISE", "1") == "0":
+                raise
+            os.environ["DEEP_VERIF_NORMALISE"] = "0"
+            try:
+                res = attempt()
+            finally:
+                os.environ["DEEP_VERIF_NORMALISE"] = "1"
+        if ctx is not None and getattr(ctx.prog, "normalised", None):
+            res.analysed["helpers spliced back into their callers before analysis"] = list(ctx.prog.normalised)
         if args.tier == "thorough" and not args.no_selftest:
             from sa.selftest import runner
             selftest = runner.run_for(pid)
